@@ -1,7 +1,7 @@
 # bin/check configuration of property C15 (a single dict expression)
 {'harness': 'c15',
  'props': 'Props/C15.v',
- 'models': ['Model/Pipeline.v'],
+ 'models': ['Model/Pipeline.v', 'Model/Eval.v'],
  'trusted': ['evaluator (ParseNode), json.Marshal, MD5/UUIDv3 and idr.JSONify2-encoding enter the theorems '
              'as Section variables; the node ID allocator (counter, sync.Pool as arbitrary-choice schedule, '
              'recycle) is modelled and its uniqueness invariant proved',
@@ -19,4 +19,8 @@
                  'EDI/csv2/fixedlength2 occurrence counters are outside the model',
                  'eval_hash_renaming (C02): results invariant under injective renaming of declaration hashes',
                  'XML checksum canon outside the F12 guard (attributes of text-only elements, text beside '
-                 'element children) is refuted: xml_checksum_refuted']}
+                 'element children) is refuted: xml_checksum_refuted',
+                 'with the C02 evaluator (Proofs/PipelineC02.v: *_c02 theorems) the evaluator hypotheses '
+                 'eval_cache_transparent / eval_id_renaming / eval_caches_sound are discharged; what remains '
+                 'assumed there is query_valid (the xpath engine returns nodes of the tree it runs on) and '
+                 'determinism of engine, externals and custom functions']}
